@@ -20,9 +20,13 @@ class UnitType:
         value, factor1, factor2 = magnitude1.value, self.baseunits1.magnitude, self.baseunits2.magnitude
         if isinstance(value, Decimal) or isinstance(factor1, Decimal) or isinstance(factor2, Decimal):
             value, factor1, factor2 = Decimal(value), Decimal(factor1), Decimal(factor2)
+        error = magnitude1.error
+        if error is not None and self.conversion[0]=="_convert_linear":
+            # absolute error scales with the same factor as the value
+            error = np.abs(error * float(factor1) / float(factor2))
         return Magnitude(
             getattr(self, self.conversion[0])(value * factor1, *self.conversion[1:]) / factor2,
-            magnitude1.error
+            error
         )
         
     def add(self, unit1, unit2):
